@@ -302,8 +302,9 @@ int main(void) {
             printf("DONE %" PRIu64 " %" PRIu64 " %" PRIu64 " %d\n", cnt, nbad, first, firstcode);
         } else if (!strcmp(t[0], "frand64") && n == 3) {
             /* frand64 <seed> <count>: pseudo-random finite double patterns, a quarter of them denormal or near a binade edge.
-               reply: DONE <count> <mismatches> <first> <code> <mismatches outside biased exponent 2..11 or not exactly one ulp off> <first of those> */
-            uint64_t cnt = strtoull(t[2], 0, 10), k, done = 0, nbad = 0, first = 0, nout = 0, firstout = 0; int firstcode = 0; rng_state = strtoull(t[1], 0, 10) * 2654435761u + 1442695040888963407ull;
+               reply: DONE <count> <mismatches> <first> <code> <mismatches with biased exponent > 11 or not exactly one ulp off> <first of those>
+                      <one-ulp mismatches with biased exponent 0..1> <first of those> */
+            uint64_t cnt = strtoull(t[2], 0, 10), k, done = 0, nbad = 0, first = 0, nout = 0, firstout = 0, nden = 0, firstden = 0; int firstcode = 0; rng_state = strtoull(t[1], 0, 10) * 2654435761u + 1442695040888963407ull;
             for (k = 0; k < cnt; ++k) {
                 uint64_t x = rng_next(); int sel = (int)(rng_next() % 8), bad;
                 if (sel == 0) x &= 0x800fffffffffffffull;                             /* denormal */
@@ -314,9 +315,10 @@ int main(void) {
                 ++done; if (bad) { unsigned be = (unsigned)((x >> 52) & 0x7ff);
                     if (!nbad) { first = x; firstcode = bad; } ++nbad;
                     /* mismatches outside biased exponent 2..11 are counted separately (the class of a known finding must not hide others) */
-                    if (be < 2 || be > 11 || !rt_d_one_ulp) { if (!nout) firstout = x; ++nout; } }
+                    if (be <= 1 && rt_d_one_ulp) { if (!nden) firstden = x; ++nden; }
+                    else if (be > 11 || !rt_d_one_ulp) { if (!nout) firstout = x; ++nout; } }
             }
-            printf("DONE %" PRIu64 " %" PRIu64 " %" PRIu64 " %d %" PRIu64 " %" PRIu64 "\n", done, nbad, first, firstcode, nout, firstout);
+            printf("DONE %" PRIu64 " %" PRIu64 " %" PRIu64 " %d %" PRIu64 " %" PRIu64 " %" PRIu64 " %" PRIu64 "\n", done, nbad, first, firstcode, nout, firstout, nden, firstden);
         } else printf("BAD\n");
         fflush(stdout);
     }
